@@ -27,6 +27,7 @@ OBLIGATIONS = [
     (P + "listing_only_when_enabled", "a listing is produced only if file_server.listing is on"),
     (P + "listing_skips_dotfiles_and_escapes", "every row of a listing is an entry of the directory read, does not start with '.', and its text un-escapes to name(+'/') with no < > \" ' and only well-formed &-references; the title is the escaped request path"),
     (P + "listing_rows_exact", "names shown = readdir entries, in order, filtered by: not starting with '.', stat ok with S_IFDIR or S_IFREG bit"),
+    (P + "defaults_are_safe", "constructor defaults extracted from the source: check_symlink on, listing off, index.html"),
     (P + "redirect_target", "a redirect goes to file_name ++ '/' only, for a directory, when an index exists or listing is on"),
 ]
 
@@ -239,7 +240,10 @@ MALFORMED = [b"/%", b"/%4", b"/%zz/a.txt", b"/a.txt%", b"/%2", b"/sub%2", b"/a%2
              b"/../rootX/rx.txt", b"/..../", b"/sub/.../", b"/al/deep/al/t1.txt", b"/al/al/t1.txt", b"/al/deep/al/deep/v.txt", b"/al/deep/al/", b"/alX/al/t1.txt", b"/other/x/al/t1.txt",
              b"/../top.txt", b"/../unlinked/u.txt", b"/../unlinked/", b"/al/x/leak.txt", b"/al/../al1x/leak.txt",
              b"/%2e%2e/top.txt", b"/sub/../../top.txt", b"/al/%2e%2e/%2e%2e/top.txt", b"/" + b"a/" * 3000, b"/" + b"../" * 2000 + b"secret.txt", b"/" + b"sub/ln_up/" * 400 + b"a.txt",
-             b"/" + b"x" * 300, b"/sub/" + b"y" * 5000]
+             b"/" + b"x" * 300, b"/sub/" + b"y" * 5000,
+             # near the HTTP front end's 16 KiB header window (beyond it the connection is closed without a reply)
+             b"/sub/" + b"../sub/" * 2100 + b"b.txt", b"/" + b"sub/ln_up/" * 1500 + b"a.txt", b"/" + b"%2e%2e%2f" * 1700 + b"top.txt",
+             b"/al/" + b"./" * 7000 + b"t1.txt"]
 
 
 def py_urldecode(t):
